@@ -207,6 +207,8 @@ PROFILES = {
                'p_clean': 0.0, 'p_vers': 0.0, 'raise': 8, 'kinds': ['list_dir', 'walk', 'list_dir', 'is_file', 'read']},
     'refuse': {'refuse': True},
     'keys': {'keys': True},
+    'threads': {'threads': True},
+    'threaddup': {'threads': True, 'p_dup': 0.85},
     # base histories for fault injection (every eligible library call is a fault point)
     'fault': {'p_crash': 0.1, 'p_clean': 0.1, 'raise': 10, 'ext': [0, 1, 1, 2], 'builds': [2, 3],
               'catch': 80},
@@ -402,8 +404,77 @@ def make_keys(seed, profile):
     return {'id': '%s-%d' % (profile, seed), 'cache': ['k'], 'universe': UNIVERSE, 'prog': prog, 'steps': steps}
 
 
+W_ = [{'s': 'write', 'c': 'c1', 'sz': 4}, {'s': 'return'}]
+R_ = [{'s': 'write', 'c': 'c2', 'sz': 4}, {'s': 'raise'}]
+THREAD_PROGS = {
+    'fW': W_, 'fW2': W_, 'fR': R_,
+    'fS': [{'s': 'return'}], 'fSR': [{'s': 'raise'}],
+    # nested calls on private targets below the shared directory
+    'fN1': [{'s': 'bf', 'p': ['n', 'm', 'g1'], 'f': 'fW', 'args': [0], 'catch': True}, {'s': 'write', 'c': 'c3', 'sz': 4}, {'s': 'return'}],
+    'fN2': [{'s': 'bf', 'p': ['n', 'o', 'g2'], 'f': 'fR', 'args': [0], 'catch': True}, {'s': 'write', 'c': 'c3', 'sz': 6}, {'s': 'return'}],
+    'fSN': [{'s': 'bf', 'p': ['n', 'm', 'g3'], 'f': 'fW', 'args': [0], 'catch': True}, {'s': 'sb', 'f': 'fS', 'args': [7], 'catch': True}, {'s': 'return'}],
+}
+THREAD_TARGETS = [['n', 'f1'], ['n', 'f2'], ['n', 'm', 'f3'], ['n', 'm', 'f4'], ['x1'], ['q', 'r', 's', 'f5'], ['q', 'r', 'f6']]
+
+
+def make_threads(seed, profile):
+    """Concurrent use of one builder (C09, C08, C17): a root function that issues 2-3 independent
+    build_file / subbuild calls from cooperative threads (statement `par`), in new, shared, stale
+    or nested directories, with failing functions and duplicates; then an unchanged rebuild and a
+    clean, all judged against the sequential contract."""
+    rnd = random.Random('threads:%s' % seed)
+    nb = rnd.choice([2, 2, 3])
+    branches = []
+    targets = rnd.sample(THREAD_TARGETS, nb)
+    dup = rnd.random() < PROFILES[profile].get('p_dup', 0.2)
+    for i in range(nb):
+        if rnd.random() < 0.75:
+            f = rnd.choice(['fW', 'fW', 'fW2', 'fR', 'fN1', 'fN2'])
+            if f in ('fN1', 'fN2') and any(b.get('f') == f for b in branches):
+                f = 'fW'
+            t = targets[i]
+            if dup and i == 1 and branches[0]['s'] == 'bf':
+                t = branches[0]['p']
+                f = rnd.choice([branches[0]['f'], 'fW2'])
+            branches.append({'s': 'bf', 'p': t, 'f': f, 'args': [i], 'cmp': rnd.choice(['METADATA', 'HASH'])})
+        else:
+            f = rnd.choice(['fS', 'fSR', 'fSN'])
+            if f == 'fSN' and any(b.get('f') == 'fSN' for b in branches):
+                f = 'fS'
+            a = [i]
+            if dup and i == 1 and branches[0]['s'] == 'sb':
+                f, a = branches[0]['f'], branches[0]['args']
+            branches.append({'s': 'sb', 'f': f, 'args': a})
+    par = {'s': 'par', 'branches': branches, 'preempt': []}
+    steps = []
+    for _ in range(rnd.choice([0, 0, 1, 2])):
+        steps.append(rnd.choice([
+            {'op': 'ext', 'do': 'mkdir', 'p': ['n']}, {'op': 'ext', 'do': 'write', 'p': ['n', 'fz'], 'c': 'c9', 'sz': 4},
+            {'op': 'ext', 'do': 'write', 'p': ['n', 'f1'], 'c': 'c8', 'sz': 4}, {'op': 'ext', 'do': 'mkdir', 'p': ['q']},
+            {'op': 'ext', 'do': 'mkdir', 'p': ['n', 'm', 'f3']}]))
+    pre_seq = rnd.random() < 0.4
+    if pre_seq:      # a sequential first build of the same calls: the threads then meet stale outputs / dirs
+        steps.append({'op': 'build', 'name': 'B', 'vers': {}, 'root': [dict(b, catch=True) for b in branches] + [{'s': 'return'}]})
+        for _ in range(rnd.choice([0, 1, 1, 2])):
+            b = rnd.choice(branches)
+            steps.append(rnd.choice([
+                {'op': 'ext', 'do': 'delete', 'p': b.get('p', ['n', 'f1'])},
+                {'op': 'ext', 'do': 'write', 'p': b.get('p', ['n', 'f1']), 'c': 'c7', 'sz': 6},
+                {'op': 'ext', 'do': 'write', 'p': ['n', 'fz'], 'c': 'c9', 'sz': 4},
+                {'op': 'ext', 'do': 'delete', 'p': ['n']}]))
+    crash = rnd.random() < 0.15
+    steps.append({'op': 'build', 'name': 'B', 'vers': {}, 'root': [par, {'s': 'raise'} if crash else {'s': 'return'}]})
+    steps.append({'op': 'build', 'name': 'B', 'vers': {}, 'root': [json.loads(json.dumps(par)), {'s': 'return'}]})
+    if rnd.random() < 0.8:
+        steps.append({'op': 'clean', 'name': 'B'})
+    return {'id': '%s-%d' % (profile, seed), 'cache': ['k'], 'universe': [], 'threads': True, 'prog': THREAD_PROGS,
+            'steps': steps}
+
+
 def make_scenario(seed, profile='general'):
     P = PROFILES[profile]
+    if P.get('threads'):
+        return make_threads(seed, profile)
     if P.get('keys'):
         return make_keys(seed, profile)
     if P.get('refuse'):
